@@ -128,7 +128,38 @@ def stepRs (st : St) (kind : String) (args impl : List String) : Option (St × S
     let keys : List String := implIds.map (·.1)
     let dup := if keys.eraseDups.length ≠ keys.length then ["side=impl key=duplicate-identity an identity is returned twice"] else []
     let over := if n ≥ 0 ∧ (implIds.length : Int) > n then [s!"side=impl key=limit-exceeded {implIds.length} peers for n={n}"] else []
-    let pf := (dropped.take 3) ++ (phantom.take 3) ++ dup ++ over
+    -- sampling lower bounds (any n): the first non-empty window visited is asked for n members
+    let liveAnns := st.anns.filter fun a => a.h = h ∧ decide (st.s.now < expireAt st.c (curWindow st.c a.t))
+    let wins := (liveAnns.map fun a => curWindow st.c a.t).eraseDups
+    let lbOf (w : Nat) : Nat :=
+      let inW := liveAnns.filter fun a => curWindow st.c a.t = w
+      let mems := (inW.map fun a => (idKey a.p, a.p.complete)).eraseDups     -- the members of that Redis set
+      let ids := (mems.map (·.1)).eraseDups
+      let both := mems.length - ids.length                                  -- identities stored under both flags
+      let p := min n.toNat mems.length
+      p - min both (p / 2)
+    let lb := match wins.map lbOf with
+      | [] => 0
+      | x :: xs => xs.foldl min x
+    let few := if n ≥ 1 ∧ !liveAnns.isEmpty ∧ implIds.isEmpty then
+        [s!"side=impl key=sample-empty GetPeers n={n} returned nothing although {liveAnns.length} announcements are live"]
+      else if n ≥ 1 ∧ implIds.length < lb then
+        [s!"side=impl key=sample-too-few GetPeers n={n} returned {implIds.length} peers, every visiting order yields at least {lb}"]
+      else []
+    -- the completion flag: returned complete while the latest live announcement of the identity is
+    -- incomplete (an earlier live one was complete: the bits of all windows are or-ed)
+    let stale := implIds.filterMap fun (k, c) =>
+      let srcs := liveAnns.filter fun a => idKey a.p = k
+      match srcs.foldl (fun (best : Option Ann) a => match best with
+          | none => some a
+          | some b => if a.t > b.t then some a else some b) none with
+      | some latest =>
+        let sameTime := srcs.filter fun a => a.t = latest.t
+        if c = "1" ∧ sameTime.all (fun a => !a.p.complete) ∧ srcs.any (fun a => a.p.complete) then
+          some s!"side=impl key=stale-complete {k} returned complete, its latest announcement (t={latest.t}) is incomplete"
+        else none
+      | none => none
+    let pf := (dropped.take 3) ++ (phantom.take 3) ++ dup ++ over ++ few ++ (stale.take 2)
     let modelToks := sortToks (all.map fun (id, c) => identTok id c)
     if n ≤ 0 then
       pure (st, { obs := ["-"], branch := "get.nonpositive", propfails := pf })
@@ -136,7 +167,9 @@ def stepRs (st : St) (kind : String) (args impl : List String) : Option (St × S
       pure (st, { obs := [listTok modelToks], branch := if all.isEmpty then "get.empty" else "get.all", propfails := pf })
     else
       -- random sampling: the implementation's choice is accepted when admissible (checked by the monitors)
-      pure (st, { obs := if pf.isEmpty then impl else [listTok modelToks], branch := "get.sampled", propfails := pf })
+      let hard := pf.filter (fun m => (m.splitOn "key=stale-complete").length = 1)
+      pure (st, { obs := if hard.isEmpty then impl else [listTok modelToks],
+                  branch := if lb ≥ 1 ∧ (lb : Int) = n then "get.sampled.exactly-n-forced" else if lb ≥ 1 then "get.sampled.lower-bounded" else "get.sampled", propfails := pf })
   | _ => none
 
 def machineRs : Machine := { σ := St, name := "rs", init := initRs, step := stepRs }
